@@ -123,6 +123,9 @@ func (x *Exec) mergeStates(pcs []string, sts []*State) *State {
 		sym := x.fresh(sanitize(k)+"@m", sort)
 		for i, s := range sts {
 			x.emit(sx("assert", implies(pcs[i], eq(sym, x.comp(s, k, sort)))))
+			for _, b := range x.anchors[k] {
+				x.emit(sx("assert", implies(pcs[i], eq(sel(sym, b), sel(x.comp(s, k, sort), b)))))
+			}
 		}
 		out.H[k] = sym
 	}
@@ -345,6 +348,14 @@ func (x *Exec) enterLoop(fr *Frame, loop *Loop, st *State, pc string) {
 		if frameOK {
 			x.emit(sx("assert", fmt.Sprintf("(forall ((r Int)) (! (=> %s (= (select %s r) (select %s r))) :pattern ((select %s r))))",
 				and(conds...), newS, oldS, newS)))
+			for _, b := range x.anchors[name] {
+				// the instance of the frame axiom at an anchored reference
+				var cs []string
+				for _, c := range conds {
+					cs = append(cs, strings.ReplaceAll(strings.ReplaceAll(c, " r ", " "+b+" "), " r)", " "+b+")"))
+				}
+				x.emit(sx("assert", implies(and(cs...), eq(sel(newS, b), sel(oldS, b)))))
+			}
 		}
 	}
 	if _, ok := mods["$alloc"]; !ok {
